@@ -87,7 +87,8 @@ def table():
     T["expand_dims"] = lambda r: ([arr(r)], lambda M, a: M.expand_dims(a, 0), {}, [])
     for nm in ("atleast_1d", "atleast_2d", "atleast_3d", "zeros_like", "ones_like"):
         T[nm] = (lambda nm: lambda r: ([arr(r)], lambda M, a: getattr(M, nm)(a), {}, []))(nm)
-    T["repeat"] = lambda r: ([arr(r, sh13(r))], lambda M, a: M.repeat(a, 2, axis=0), {}, [])
+    T["repeat"] = lambda r: (lambda ax: ([arr(r, sh13(r))], (lambda M, a: M.repeat(a, 2)) if ax == "default" else (lambda M, a: M.repeat(a, 2, axis=ax)),
+                                         {"axis": ax}, ["default-axis"] if ax == "default" else []))(gen.choice(r, ["default", 0, 0, -1]))
     T["tile"] = lambda r: ([arr(r)], lambda M, a: M.tile(a, 2), {}, [])
     for nm in ("concatenate", "stack", "hstack", "vstack", "dstack"):
         T[nm] = (lambda nm: lambda r: (lambda sh: ([arr(r, sh, "int"), arr(r, sh, "int")], lambda M, a, b: getattr(M, nm)([a, b]), {}, []))(sh13(r)))(nm)
@@ -199,6 +200,55 @@ def run_table(ctx, monitor):
                     ctx.fail(case, f"numpoly.{nm}{info} on constants {[a.tolist() for a in arrays]}: {diff}", tags + ["value" if "values" in diff else "shape" if "shape" in diff else "type"])
 
 
+REDUCTIONS = {"sum": (True, True, None), "mean": (True, True, None), "all": (True, True, None), "any": (True, True, None),
+              "amax": (True, True, None), "amin": (True, True, None), "max": (True, True, None), "min": (True, True, None),
+              "count_nonzero": (True, True, None), "prod": (True, True, "int"), "cumsum": (False, False, None),
+              "argmax": (False, False, None), "argmin": (False, False, None)}
+
+
+def run_reduction_grid(ctx, monitor):
+    """every axis (negative ones and pairs included) x keepdims for every reduction, on one array per shape: the
+    property quantifies over *all* axis/keepdims arguments, so this part is exhaustive rather than sampled"""
+    rng = ctx.rng("grid")
+    from ..extract import tables
+    registered = {k.split(".")[-1] for k, _ in tables()["ufuncRegistry"]} | {k.split(".")[-1] for k, _ in tables()["functionRegistry"]}
+    shapes = [(4,), (2, 3), (2, 1, 3)] if ctx.quick else [(4,), (1, 4), (2, 3), (3, 2), (2, 2, 2), (2, 1, 3)]
+    for nm, (kd, tuples, kind) in sorted(REDUCTIONS.items()):
+        if nm not in registered:
+            continue
+        for sh in shapes:
+            a = arr(rng, sh, kind, lo=-2, hi=2)
+            for ax in axes(len(sh), tuples):
+                for keep in ([False, True] if kd else [False]):
+                    kw = ({} if ax is None else {"axis": ax}) | ({"keepdims": True} if keep else {})
+                    tags = [f"fn:{nm}", "grid"] + (["axis"] if ax is not None else []) + (["keepdims"] if keep else []) + \
+                        (["axis-tuple"] if isinstance(ax, tuple) else []) + \
+                        (["extreme-with-axis"] if nm in ("amax", "amin", "max", "min") and ax is not None else [])
+                    case = {"kind": "const", "function": nm, "arrays": [a.tolist()], "dtypes": [str(a.dtype)],
+                            "args": {k: (list(v) if isinstance(v, tuple) else v) for k, v in kw.items()}, "grid": True}
+                    with warnings.catch_warnings():
+                        warnings.simplefilter("ignore")
+                        try:
+                            want = getattr(numpy, nm)(a.copy(), **kw)
+                        except Exception:  # noqa: BLE001
+                            ctx.count("numpy-rejects-arguments")
+                            continue
+                        ctx.evaluations += 1
+                        ctx.count("grid")
+                        p = numpoly.polynomial(a)
+                        try:
+                            with monitor.watch(f"C11:{nm}", p):
+                                got = getattr(numpoly, nm)(p, **kw)
+                            diff = same(plain(got), want, nm)
+                        except FNS:
+                            diff = "result is a non-constant polynomial"
+                        except Exception as err:  # noqa: BLE001
+                            ctx.fail(case, f"numpoly.{nm}{kw} on a constant polynomial of shape {sh} raised {type(err).__name__}: {str(err)[:120]}", tags + [f"raises:{err_kind(err)}"])
+                            continue
+                        if diff:
+                            ctx.fail(case, f"numpoly.{nm}{kw} on constants {a.tolist()}: {diff}", tags + ["value" if "values" in diff else "shape" if "shape" in diff else "type"])
+
+
 def run_division(ctx):
     q0, q1 = numpoly.variable(2)
     divisors = [q0, numpoly.polynomial([q0, 2]), q0 * q1 + 1]
@@ -225,6 +275,7 @@ def run(ctx):
     ctx.rule = RULE
     monitor = Monitor()
     run_table(ctx, monitor)
+    run_reduction_grid(ctx, monitor)
     run_division(ctx)
     ctx.extra["argument_monitor"] = {"calls": monitor.calls, "mutations": monitor.events[:5]}
     ctx.sample({"function": "argmax", "array": [[3, 1, 3]], "axis": 1, "numpy": [0]})
@@ -238,6 +289,13 @@ def replay(ctx, case):
     T = table()
     nm = case["function"]
     arrays = [numpy.array(a, dtype=d) for a, d in zip(case["arrays"], case["dtypes"])]
+    if case.get("grid"):
+        kw = {k: (tuple(v) if isinstance(v, list) else v) for k, v in case["args"].items()}
+        try:
+            diff = same(plain(getattr(numpoly, nm)(numpoly.polynomial(arrays[0]), **kw)), getattr(numpy, nm)(arrays[0], **kw), nm)
+        except Exception as err:  # noqa: BLE001
+            return f"numpoly.{nm}{kw} raised {type(err).__name__}: {err}"
+        return f"numpoly.{nm}{kw}: {diff}" if diff else None
     # the argument grid of the stored case is re-drawn; replay all grids of this function on the stored arrays
     from ..core import make_rng
     rng = make_rng(0, "C11/replay")
